@@ -14,6 +14,14 @@ pub fn drive(vectors: &str, out: &str, thorough: bool, seed: u64) {
   let cases: Vec<(usize, &Value)> = all.iter().enumerate().filter(|(i, _)| (i + seed as usize) % stride == 0).collect();
   let scratch = format!("/var/tmp/agv-c15-{}", std::process::id());
   let recs = cli::par_map(&cases, 12, |_, (i, v)| {
+    // in every third project a third rule r3, in the language of r1 and without globs, is read after r2: rules of one
+    // language need not be neighbours in the order in which the rule files are read
+    let mut v3 = (*v).clone();
+    if i % 3 == 1 {
+      let lang = v3["rules"][0]["lang"].clone();
+      v3["rules"].as_array_mut().unwrap().push(json!({"id": "r3", "lang": lang, "files": [], "ignores": [], "sev": "error"}));
+    }
+    let v = &v3;
     let p = Project::new(&format!("{scratch}/p{i}"));
     let extra = match v["lglob"].as_str().unwrap_or("none") {
       "extra" => Some(json!({"languageGlobs": {"javascript": ["*.mjsx"]}})),
